@@ -218,16 +218,19 @@ Proof.
   unfold adts_dec. rewrite adts_frame_eqb_refl. reflexivity.
 Qed.
 
-Lemma packetize_all_spec sps pps a cs : asc_plain a = true -> forallb wf_cframe cs = true ->
-  exists fs, packetize_all sps pps a cs = Some fs /\ wf_frames fs = true /\
+Lemma packetize_all_spec a afs : asc_plain a = true ->
+  forallb (fun af => wf_cframe (a_c af)) afs = true ->
+  exists fs, packetize_all a afs = Some fs /\ wf_frames fs = true /\
     forall us, units_ok unit_ok (filter has_payload fs) us = true ->
-               units_ok (src_unit_ok sps pps a) (filter src_carried cs) us = true.
+               units_ok (asrc_unit_ok a) (filter asrc_carried afs) us = true.
 Proof.
-  intros Ha. induction cs as [| c cs IH]; intros Hwf.
+  intros Ha. induction afs as [| af afs IH]; intros Hwf.
   - exists []. repeat split; auto.
   - cbn [forallb] in Hwf. apply andb_true_iff in Hwf. destruct Hwf as (Hc & Hwf).
     destruct (IH Hwf) as (fs & Hfs & Hwfs & Hunits). clear IH.
-    cbn [packetize_all filter]. unfold packetize. unfold src_carried at 1. unfold wf_cframe in Hc.
+    destruct af as [sps pps c]. cbn [a_c] in Hc.
+    cbn [packetize_all filter a_sps a_pps a_c]. unfold packetize. unfold asrc_carried at 1. cbn [a_c].
+    unfold src_carried. unfold wf_cframe in Hc.
     destruct (c_video c) eqn:Hv.
     + (* video *)
       unfold packetize_h264.
@@ -239,6 +242,7 @@ Proof.
         intros us. cbn [filter]. unfold has_payload at 1. cbn [f_pay]. rewrite Epay at 1.
         destruct us as [| u us]; [cbn; discriminate |]. cbn [units_ok].
         intros H. apply andb_true_iff in H. destruct H as (Hu & Hus).
+        unfold asrc_unit_ok at 1. cbn [a_sps a_pps a_c].
         rewrite (video_unit_ok sps pps a c (Z.land b0 31) u Hv Ht Ep Hu), (Hunits us Hus). reflexivity.
     + (* audio *)
       assert (Hn : zlen (c_pay c) + 7 < 8192).
@@ -250,15 +254,28 @@ Proof.
       * apply Hunits.
       * rewrite <- Epay. destruct us as [| u us]; [cbn; discriminate |]. cbn [units_ok].
         intros H. apply andb_true_iff in H. destruct H as (Hu & Hus).
+        unfold asrc_unit_ok at 1. cbn [a_sps a_pps a_c].
         rewrite (audio_unit_ok sps pps a c u Hv Ha ltac:(rewrite Epay; exact Hn) Hu), (Hunits us Hus). reflexivity.
 Qed.
+
+(* events: parameter sets may change between frames; every key frame carries the ones current at its time *)
+Theorem mux_events_passes sps0 pps0 a evs : wf_mux_ev sps0 pps0 a evs = true ->
+  exists out, mux_events sps0 pps0 a evs = MuxBytes out /\
+              ok_muxa a (annotate sps0 pps0 evs) out = true.
+Proof.
+  unfold wf_mux_ev, wf_aframes. intros H. apply andb_true_iff in H. destruct H as (Ha & Hwf).
+  destruct (packetize_all_spec a _ Ha Hwf) as (fs & Hfs & Hwfs & Hunits).
+  unfold mux_events. rewrite Hfs. eexists. split; [reflexivity |].
+  destruct (ts_stream_spec fs Hwfs) as (ks & us & _ & _ & Hu & Hok).
+  unfold ok_muxa. rewrite Hu, psi_units_ok, (Hunits us Hok). reflexivity.
+Qed.
+
+Lemma annotate_frames_wf sps pps cs :
+  forallb (fun af => wf_cframe (a_c af)) (annotate sps pps (map EvFrame cs)) = forallb wf_cframe cs.
+Proof. induction cs as [| c cs IH]; [reflexivity |]. cbn [map annotate forallb a_c]. rewrite IH. reflexivity. Qed.
 
 Theorem mux_passes sps pps a cs : wf_mux a cs = true ->
   exists out, mux_all sps pps a cs = MuxBytes out /\ ok_mux sps pps a cs out = true.
 Proof.
-  unfold wf_mux. intros H. apply andb_true_iff in H. destruct H as (Ha & Hwf).
-  destruct (packetize_all_spec sps pps a cs Ha Hwf) as (fs & Hfs & Hwfs & Hunits).
-  unfold mux_all. rewrite Hfs. eexists. split; [reflexivity |].
-  destruct (ts_stream_spec fs Hwfs) as (ks & us & _ & _ & Hu & Hok).
-  unfold ok_mux. rewrite Hu, psi_units_ok, (Hunits us Hok). reflexivity.
+  intros H. apply mux_events_passes. unfold wf_mux_ev, wf_aframes. rewrite annotate_frames_wf. exact H.
 Qed.
